@@ -174,6 +174,15 @@ def build_inputs(tier):
         c, mode = make_context(r)
         ctx = c.replace("{", "{{").replace("}", "}}").replace(HOLE, "{H}")
         cases.append(("random-ctx", ctx, mode, [xonshgen.gen_construct(r)]))
+    # every string-like construct (path literals incl. implicit concatenations, search paths) in front of LATER string literals:
+    # whatever state such a literal leaves behind must not reach the next one
+    stringish = [("pathlit", "p'/a' pf'/{b}'", "__xonsh__.path_literal(f'/a/{b}')", "primary"), ("pathlit", 'p"/a" "b"', "__xonsh__.path_literal('/ab')", "primary"),
+                 ("pathlit", "p'/a' f'/{b}' 'c'", "__xonsh__.path_literal(f'/a/{b}c')", "primary"), ("pathlit", "pf'{x}/' f'{y}' 'z'", "__xonsh__.path_literal(f'{x}/{y}z')", "primary"),
+                 ("pathlit", "pf'{x}' pf'{y}'", "__xonsh__.path_literal(f'{x}{y}')", "primary"), ("pathlit", "pf'/tmp/{u}'", "__xonsh__.path_literal(f'/tmp/{u}')", "primary"),
+                 ("pathlit", "p'/x'", "__xonsh__.path_literal('/x')", "primary"), ("search", "`a.*`", "__xonsh__.pathsearch('`a.*`')", "primary")]
+    for f in stringish:
+        for ctx in ["x = {H}\ny = 'plain'\n", "f({H}, 'plain', \"q\")\n", "a = [{H}, 'p', {H2}, 's']\n", "x = {H}; y = 'after' 'more'\n", "def g():\n    return {H}\nz = f'{{q}}' 's'\n", "x = ({H}, f'{{a}}', 'b')\n"]:
+            cases.append(("later-string", ctx, "exec", [f, stringish[-2]][: 2 if "{H2}" in ctx else 1]))
     # binding targets with Store context
     for tctx in ["{H} = 1\n", "for {H} in y: pass\n", "with a as {H}: pass\n", "[i for {H} in y]\n", "{H}, b = 1, 2\n", "for a, {H} in y: pass\n", "[{H}, *c] = y\n", "with a as ({H}, b): pass\n", "{H} = b = 3\n", "({H}) = 2\n", "for ({H}) in xs: pass\n", "with f as ({H}): pass\n", "[0 for ({H}) in xs]\n", "[{H}] = y\n", "({H}, b) = y\n", "*{H}, b = y\n" if False else "a, ({H}) = y\n"]:
         for name in ["$X", "${'a'+b}", "${n}", "$HOME"]:
